@@ -84,9 +84,24 @@ pub fn check_xor(ctx: &mut Ctx, a: &RefAddr, tid: &[u8; 12], through_message: bo
                 let ct = COMPANIONS[(sel / 3 + k * 5) % COMPANIONS.len()];
                 let _ = b.add_raw_attribute(RawAttribute::new(AttributeType::new(ct), &wire[..(sel + k) % 5]).into_owned());
             }
+            // now and then next to an attribute so large that the message is one of the largest the
+            // length field can express (20 + 65 516 .. 65 532 bytes)
+            if sel % 16 == 5 {
+                let n = 65_540 + 4 * (sel % 4) - b.byte_len() - 4 - (4 + wire.len());
+                let _ = b.add_raw_attribute(RawAttribute::new(AttributeType::new(0x7e7e), &vec![0x7eu8; n]).into_owned());
+            }
             b.add_attribute(&x).ok();
             let bytes = b.build();
-            Message::from_bytes(&bytes).ok().and_then(|m| m.attribute::<XorMappedAddress>().ok().map(|d| d.addr(m.transaction_id())))
+            // the owned copy of the builder (made while it still borrows the typed attribute) and its
+            // in-place writer carry the same message
+            let owned = b.clone().into_owned();
+            let mut dest = vec![0x3Cu8; bytes.len()];
+            let n = owned.write_into(&mut dest).unwrap_or(0);
+            if owned.build() != bytes || dest[..n.min(dest.len())] != bytes[..] {
+                None
+            } else {
+                Message::from_bytes(&bytes).ok().and_then(|m| m.attribute::<XorMappedAddress>().ok().map(|d| d.addr(m.transaction_id())))
+            }
         } else {
             Some(std_addr)
         };
